@@ -176,3 +176,12 @@ Qed.
 
 Example model_trace_pull : model_trace pull_desc false false = [0; 2; 1; 0; 2; 1]%N.
 Proof. reflexivity. Qed.
+
+(* Race-detector runs (family race; C13 / C14): rc_bad = wrong checksums / errors of one in-process
+   round, or the number of DATA RACE reports; rc_off = 1 when the harness was not built with the race
+   detector (then nothing was observed: a broken tie, not a pass). *)
+Record racecase := mkRace { rc_id : N; rc_bad : N; rc_off : N }.
+Definition verdict_race (c : racecase) : N :=
+  ((if (rc_off c =? 0)%N then 0 else 1) + (if (rc_bad c =? 0)%N then 0 else 2))%N.
+Definition run_race (cs : list racecase) : list (N * N) :=
+  filter (fun p => negb (snd p =? 0)%N) (map (fun c => (rc_id c, verdict_race c)) cs).
